@@ -104,7 +104,7 @@ def run(tier, v):
     # --- unusual temp-directory settings (a check run needs no temp directory at all)
     ntf = 0
     for sc in reps[:2]:
-        for form in ("nonexistent", "file", "relative", "trailing-slash", "non-utf8"):
+        for form in ("nonexistent", "file", "relative", "trailing-slash", "non-utf8", "empty"):
             x = fsx.execute((sc, [], dict(opt, tmp_form=form)))
             ex._account(x)
             sc2 = fsx.Scenario(sc.name + "+TMPDIR=" + form, sc.files, check=True, lock=sc.lock)
